@@ -112,19 +112,33 @@ def uniform_families(chk):
         e = np.asarray(shape.edges)
         L = np.linalg.norm(v[e[:, 0]] - v[e[:, 1]], axis=1)
         return float(L.max() / L.min())
-    for n in range(3, 201):
-        n_eval += 1
-        v = F.RegularNGonFamily.make_vertices(n)
-        g = F.RegularNGonFamily.get_shape(n)
+
+    def ngon_defect(n):
+        try:
+            v = np.asarray(F.RegularNGonFamily.make_vertices(n))
+            g = F.RegularNGonFamily.get_shape(n)
+        except Exception as e:  # noqa: BLE001  an admissible n must not raise
+            return {"n": n, "raised": f"{type(e).__name__}: {e}"[:150]}
+        if v.ndim != 2 or len(v) != n:
+            return {"n": n, "rows": int(len(v))}
         r = np.linalg.norm(v[:, :2], axis=1)
         ang = np.arctan2(v[:, 1], v[:, 0])
-        ok = (len(v) == n and abs(g.area - 1) < 1e-9 and r.max() - r.min() < 1e-12 and abs(v[0, 1]) < 1e-12 and v[0, 0] > 0
+        ok = (abs(g.area - 1) < 1e-9 and r.max() - r.min() < 1e-12 and abs(v[0, 1]) < 1e-12 and v[0, 0] > 0
               and np.allclose(np.mod(np.diff(ang), 2 * np.pi), 2 * np.pi / n, atol=1e-9) and np.allclose(v[:, 2], 0))
-        if not ok:
-            fails.append((f"RegularNGonFamily(n={n})", {"area": float(g.area), "first_vertex": v[0].tolist()}))
+        return None if ok else {"n": n, "rows": int(len(v)), "area": float(g.area), "first_vertex": v[0].tolist()}
+
+    for n in range(3, 201):
+        n_eval += 1
+        bad = ngon_defect(n)
+        if bad:
+            fails.append((f"RegularNGonFamily(n={n})", bad))
         for fam, count in ((F.UniformPrismFamily, 2 * n), (F.UniformAntiprismFamily, 2 * n)):
             n_eval += 1
-            s = fam.get_shape(n)
+            try:
+                s = fam.get_shape(n)
+            except Exception as e:  # noqa: BLE001
+                fails.append((f"{fam.__name__}(n={n})", {"n": n, "raised": f"{type(e).__name__}: {e}"[:150]}))
+                continue
             c = np.asarray(s.centroid)
             if len(s.vertices) != count or abs(s.volume - 1) > 1e-9 or np.abs(c).max() > 1e-9 or edges_equal(s) > 1 + 1e-7:
                 fails.append((f"{fam.__name__}(n={n})", {"vertices": len(s.vertices), "volume": float(s.volume), "centroid": c.tolist(),
@@ -132,7 +146,11 @@ def uniform_families(chk):
     for n in range(3, 6):
         for fam, count in ((F.UniformPyramidFamily, n + 1), (F.UniformDipyramidFamily, n + 2)):
             n_eval += 1
-            s = fam.get_shape(n)
+            try:
+                s = fam.get_shape(n)
+            except Exception as e:  # noqa: BLE001
+                fails.append((f"{fam.__name__}(n={n})", {"n": n, "raised": f"{type(e).__name__}: {e}"[:150]}))
+                continue
             c = np.asarray(s.centroid)
             if len(s.vertices) != count or abs(s.volume - 1) > 1e-9 or np.abs(c).max() > 1e-9 or edges_equal(s) > 1 + 1e-7:
                 fails.append((f"{fam.__name__}(n={n})", {"vertices": len(s.vertices), "volume": float(s.volume), "centroid": c.tolist(),
@@ -197,8 +215,8 @@ def truncation_families(chk):
                     continue
                 try:
                     shape = fam.get_shape(a_, c_)
-                except ValueError as e:
-                    fails.append((f"{fam_name}(a={a_:.4f},c={c_:.4f})", {"raised": str(e)[:100], "exact_vertices": len(want)}))
+                except Exception as e:  # noqa: BLE001
+                    fails.append((f"{fam_name}(a={a_:.4f},c={c_:.4f})", {"raised": f"{type(e).__name__}: {e}"[:100], "exact_vertices": len(want)}))
                     continue
                 got = np.asarray(shape.vertices)
                 ok = len(got) == len(want) and all(min(np.linalg.norm(g - w) for w in want) < 1e-6 for g in got)
@@ -206,7 +224,11 @@ def truncation_families(chk):
                     fails.append((f"{fam_name}(a={a_:.4f},c={c_:.4f})", {"vertices": len(got), "exact_vertices": len(want)}))
     for t_ in np.linspace(0, 1, 11):
         n_eval += 1
-        s = F.TruncatedTetrahedronFamily.get_shape(float(t_))
+        try:
+            s = F.TruncatedTetrahedronFamily.get_shape(float(t_))
+        except Exception as e:  # noqa: BLE001
+            fails.append((f"TruncatedTetrahedronFamily(t={t_:.2f})", {"raised": f"{type(e).__name__}: {e}"[:150]}))
+            continue
         want = exact_vertices(np.asarray(F.Family323Plus._planes, float), np.asarray(F.Family323Plus._plane_types), [1, 1, 3 - 2 * t_])
         if len(want) >= 4 and min(np.linalg.norm(p - q) for p, q in itertools.combinations(want, 2)) > 1e-4 and len(s.vertices) != len(want):
             fails.append((f"TruncatedTetrahedronFamily(t={t_:.2f})", {"vertices": len(s.vertices), "exact_vertices": len(want)}))
@@ -224,7 +246,11 @@ def truncation_families(chk):
     corners = {(1, 1): (6, 8), (3, 1): (4, 4), (1, 3): (4, 4), (3, 3): (8, 6)}
     for (a_, c_), (nv, nf) in corners.items():
         n_eval += 1
-        s = F.Family323Plus.get_shape(a_, c_)
+        try:
+            s = F.Family323Plus.get_shape(a_, c_)
+        except Exception as e:  # noqa: BLE001
+            fails.append((f"Family323Plus corner ({a_},{c_})", {"raised": f"{type(e).__name__}: {e}"[:150]}))
+            continue
         if (len(s.vertices), len(s.faces)) != (nv, nf):
             fails.append((f"Family323Plus corner ({a_},{c_})", {"vertices": len(s.vertices), "faces": len(s.faces), "expected": [nv, nf]}))
     for name, info in fails[:5]:
@@ -241,7 +267,7 @@ def truncation_families(chk):
 
 def run(chk):
     chk.trusted += ["float64 arithmetic treated as exact real arithmetic in the guard proofs"]
-    guards(chk)
+    chk.section("truncation_family_guards", "coxeter.families.plane_shape_families::Family323Plus.get_shape", lambda: guards(chk))
     fk = chk.function("coxeter.families.common", "_make_ngon")
     common = chk.loader().load("coxeter.families.common")
     n = sp.Symbol("n", integer=True)
@@ -255,10 +281,12 @@ def run(chk):
             return "ValueError"
         except StopIteration:
             return "proceeds"
-    for p in chk.explore(fk, run_ng):
-        if p.value == "ValueError":
-            chk.prove(f"_make_ngon:raises_only_for_n<3[{path_tag(p)}]", fk, p.pc, sp.Lt(n, 3))
-        else:
-            chk.prove(f"_make_ngon:proceeds_only_for_n>=3[{path_tag(p)}]", fk, p.pc, sp.Ge(n, 3))
+    def ngon_guard():
+        for p in chk.explore(fk, run_ng):
+            if p.value == "ValueError":
+                chk.prove(f"_make_ngon:raises_only_for_n<3[{path_tag(p)}]", fk, p.pc, sp.Lt(n, 3))
+            else:
+                chk.prove(f"_make_ngon:proceeds_only_for_n>=3[{path_tag(p)}]", fk, p.pc, sp.Ge(n, 3))
+    chk.section("_make_ngon_guard", fk, ngon_guard)
     uniform_families(chk)
     truncation_families(chk)
